@@ -158,3 +158,128 @@ def gen_soup(rng, maxn=8):
 
 def tree_lit(obj):
     return L.tree(L.canon(obj))
+
+
+# ---------------------------------------------------------------------------------------
+# streams shared by C01–C06
+LOOKUP_STREAM = dict(requires=["Xpath.Find"], itype="(nat * tree) * pstr",
+                     model="fun x => obs_lookup (fst (fst x)) (snd (fst x)) (snd x)")
+OPS_STREAM = dict(requires=["Xpath.Find", "Xpath.Write"], itype="tree * list wop",
+                  model="fun x => run_ops (fst x) (snd x)")
+POP_STREAM = dict(requires=["Xpath.Find", "Xpath.Write"], itype="(tree * pstr) * bool",
+                  model="fun x => obs_pop (fst (fst x)) (snd (fst x)) (snd x)")
+ENUM_STREAM = dict(requires=["Xpath.Find", "Xpath.Write"], itype="tree", model="obs_enum")
+TOK_STREAM = dict(requires=["Xpath.Token"], itype="pstr", model="obs_tokenize")
+EVAL_STREAM = dict(requires=["Xpath.Token"], itype="pstr", model="obs_n0eval")
+SNI_STREAM = dict(requires=["Xpath.Token"], itype="pstr", model="obs_sni")
+
+DFLT = "<D>"
+ALLOWED_MISS = ("ExKey", "ExIndex", "ExValue", "ExType", "ExSyntax")
+
+
+def raw_get(obj, path):
+    """navigate with the builtin dict/list item access (never the xpath machinery)"""
+    for s in path:
+        obj = dict.__getitem__(obj, s) if isinstance(obj, dict) else list.__getitem__(obj, s)
+    return obj
+
+
+def plain(x):
+    if isinstance(x, dict):
+        return {k: plain(v) for k, v in dict.items(x)}
+    if isinstance(x, (list, tuple)):
+        return [plain(v) for v in list.__iter__(x)]
+    return x
+
+
+def same(a, b):
+    """equality that distinguishes True/1/1.0 and checks structure recursively"""
+    if isinstance(a, dict) and isinstance(b, dict):
+        return list(a.keys()) == list(b.keys()) and all(same(a[k], b[k]) for k in a)
+    if isinstance(a, list) and isinstance(b, list):
+        return len(a) == len(b) and all(same(x, y) for x, y in zip(a, b))
+    return type(a) is type(b) and a == b
+
+
+def lookup(obj, kind, xp):
+    if kind == 0:
+        return obj[xp]
+    if kind == 1:
+        return obj.get(xp, DFLT)
+    return obj.first(xp, DFLT)
+
+
+def lookup_obs(obj, kind, xp):
+    v = lookup(obj, kind, xp)
+    return {"ok": ["l", 0, [L.canon(v), L.canon(obj)]]}
+
+
+def lookup_lit(obj, kind, xp):
+    return "((%d%%nat, %s), %s)" % (kind, tree_lit(obj), L.pstr(xp))
+
+
+def value_of(v):
+    """JSON value of an op -> the object that is stored"""
+    import n0struct
+    return n0struct.n0dict.convert_recursively(copy.deepcopy(v)) if isinstance(v, (dict, list)) else v
+
+
+def apply_op(obj, op):
+    k = op[0]
+    if k == "set":
+        obj[op[1]] = value_of(op[2])
+    elif k == "del":
+        obj.delete(op[1], bool(op[2]))
+    elif k == "pop":
+        return obj.pop(op[1], DFLT, bool(op[2]))
+    else:
+        raise ValueError(k)
+
+
+def op_lit(op):
+    k = op[0]
+    if k == "set":
+        return "WSet %s (%s)" % (L.pstr(op[1]), tree_lit(value_of(op[2])))
+    if k == "del":
+        return "WDel %s %s" % (L.pstr(op[1]), L.boolean(bool(op[2])))
+    return "WPop %s %s" % (L.pstr(op[1]), L.boolean(bool(op[2])))
+
+
+def ops_lit(obj, ops):
+    return "(%s, %s)" % (tree_lit(obj), L.lst(op_lit(o) for o in ops))
+
+
+# reference (plain nested dict/list) semantics of the write operations ---------------------
+def ref_set(t, path, v):
+    t = copy.deepcopy(t)
+    if not path:
+        return v
+    node = t
+    for s in path[:-1]:
+        node = node[s]
+    node[path[-1]] = copy.deepcopy(v)
+    return t
+
+
+def ref_del(t, path, recursively=False):
+    t = copy.deepcopy(t)
+    node = t
+    for s in path[:-1]:
+        node = node[s]
+    del node[path[-1]]
+    if recursively:
+        # ancestors that became empty dictionaries are removed as well
+        p = list(path[:-1])
+        while p:
+            cur = t
+            for s in p:
+                cur = cur[s]
+            if isinstance(cur, dict) and not cur:
+                par = t
+                for s in p[:-1]:
+                    par = par[s]
+                del par[p[-1]]
+                p = p[:-1]
+            else:
+                break
+    return t
